@@ -340,15 +340,44 @@ func runC11(sh *core.Shard, a props.Args) {
 				s.Stats["graceful_leaves"]++
 			}
 			if variant == "leave-closure" && !s.Failed() {
-				// "the rest follow through gossip": after N+1 loss-free sweeps among
-				// the survivors, every survivor that knows X knows that it left
+				// "the rest follow through gossip": if some survivor has learned that X
+				// left, loss-free sweeps among the survivors must keep making progress
+				// (some survivor's view of X advances every sweep) until every survivor
+				// that knows X knows that it left. Truncated deltas may need many sweeps,
+				// so the verdict is on progress, not on a fixed number of sweeps.
 				var surv []int
 				for _, m := range s.Nodes {
 					if m.Started && m.Alive && m.Idx != x && !m.Left {
 						surv = append(surv, m.Idx)
 					}
 				}
-				for k := 0; k < len(surv)+1 && !s.Failed(); k++ {
+				heard := false
+				for _, i := range surv {
+					if meta, ok := s.Meta(i, x); ok && meta.Left {
+						heard = true
+					}
+				}
+				if !heard {
+					s.Stats["leave_heard_by_nobody"]++ // e.g. the only pull was truncated before the marker
+				}
+				for sweep := 0; heard && sweep < 400 && !s.Failed(); sweep++ {
+					lag := -1
+					var sum uint64
+					for _, i := range surv {
+						if meta, ok := s.Meta(i, x); ok {
+							sum += meta.Version
+							if !meta.Left {
+								lag = i
+							}
+						}
+					}
+					if lag < 0 {
+						s.Stats["leave_propagation_checks"]++
+						if int64(sweep) > s.Stats["leave_propagation_sweeps_max"] {
+							s.Stats["leave_propagation_sweeps_max"] = int64(sweep)
+						}
+						break
+					}
 					for _, i := range surv {
 						for _, j := range surv {
 							if i != j && s.Knows(i, j) {
@@ -356,13 +385,21 @@ func runC11(sh *core.Shard, a props.Args) {
 							}
 						}
 					}
-				}
-				for _, i := range surv {
-					if meta, ok := s.Meta(i, x); ok && !meta.Left && !s.Failed() {
-						s.Fail("leave-not-propagated", "n%d left gracefully and at least one survivor knows it, but after %d loss-free gossip sweeps among the survivors n%d still holds it as a member that has not left (unreachable=%v)", x, len(surv)+1, i, meta.Unreachable)
+					var after uint64
+					for _, i := range surv {
+						if meta, ok := s.Meta(i, x); ok {
+							after += meta.Version
+						}
+					}
+					if after == sum {
+						// one more chance: digests are shuffled and may be truncated
+						if sweep%8 != 7 {
+							continue
+						}
+						meta, _ := s.Meta(lag, x)
+						s.Fail("leave-not-propagated", "n%d left gracefully and a survivor knows it, but loss-free gossip sweeps among the survivors make no progress: n%d still holds it as a member that has not left (unreachable=%v, version %d) after %d sweeps", x, lag, meta.Unreachable, meta.Version, sweep+1)
 					}
 				}
-				s.Stats["leave_propagation_checks"]++
 			}
 			if !s.Failed() {
 				closure(s, r, x, map[string]string{"crash-closure": "crashed", "leave-closure": "left"}[variant])
